@@ -21,6 +21,7 @@ RULE = ("40% grammar-generated histories with periodic save ticks / stop+start c
         "5 versions x threaded/asyncio x plain/MQTT x JSON/pickle, 30% of the directed ones without event callback. "
         "The monitor compares a typed snapshot of the tree held at stop() with the tree the next start loads. "
         "non-trivial = distinct history with at least one stop whose state had a node and that had a save tick before it")
+RULE += ' MONITORS ONLY: harness/impl/slowsave.py - a scheduled save still being written in its own thread (paused after serialising / in fsync / before the first rename) when messages are handled and stop() is called: after stop() and the end of that thread a fresh gateway loads what the gateway held (real threads, both flavours and formats, 24 variants).'
 ASSUMPTIONS = ["a clean stop and restart = stop(), a new gateway object with the same configuration, start_persistence() "
                "(threading.Timer replaced by an inert fake; asyncio flavour: load + one save inline)",
                "a periodic save tick = one call of Persistence.save_sensors (what the timer / the asyncio task calls)",
